@@ -46,7 +46,8 @@ def _container(feats):
 def _l1_point(n: int, s0: int, l0: int, s1: int, l1: int, s2: int, l2: int, st0: int, st1: int, st2: int, x: int, qs: int, opt: int) -> bool:
     """
     pre: 1 <= n <= 3
-    pre: 0 <= l0 and 0 <= l1 and 0 <= l2
+    pre: 0 <= l0 <= 1099511627776 and 0 <= l1 <= 1099511627776 and 0 <= l2 <= 1099511627776
+    pre: 0 <= s0 <= 1099511627776 and 0 <= s1 <= 1099511627776 and 0 <= s2 <= 1099511627776 and -1099511627776 <= x <= 4 * 1099511627776
     pre: 0 <= st0 <= 2 and 0 <= st1 <= 2 and 0 <= st2 <= 2 and 0 <= qs <= 2
     pre: 0 <= opt <= 3
     post: _
@@ -64,9 +65,10 @@ def _l1_point(n: int, s0: int, l0: int, s1: int, l1: int, s2: int, l2: int, st0:
 def _l2_range(n: int, s0: int, l0: int, s1: int, l1: int, st0: int, st1: int, a: int, w: int, qs: int) -> bool:
     """
     pre: 1 <= n <= 2
-    pre: 0 <= l0 and 0 <= l1
+    pre: 0 <= l0 <= 1099511627776 and 0 <= l1 <= 1099511627776
+    pre: 0 <= s0 <= 1099511627776 and 0 <= s1 <= 1099511627776 and -1099511627776 <= a <= 4 * 1099511627776
     pre: 0 <= st0 <= 2 and 0 <= st1 <= 2 and 0 <= qs <= 2
-    pre: 0 <= w
+    pre: 0 <= w <= 1099511627776
     post: _
     """
     feats = _mk(n, [(s0, l0), (s1, l1)], [st0, st1])
@@ -80,11 +82,12 @@ def _l2_range(n: int, s0: int, l0: int, s1: int, l1: int, st0: int, st1: int, a:
 def _l2_read(n: int, s0: int, l0: int, s1: int, l1: int, st0: int, st1: int, r: int, b1: int, gap: int, b2: int, method: int, qs: int) -> bool:
     """
     pre: 1 <= n <= 2
-    pre: 0 <= l0 and 0 <= l1
+    pre: 0 <= l0 <= 1099511627776 and 0 <= l1 <= 1099511627776
+    pre: 0 <= s0 <= 1099511627776 and 0 <= s1 <= 1099511627776
     pre: 0 <= st0 <= 2 and 0 <= st1 <= 2 and 0 <= qs <= 2
     pre: 1 <= b1 <= 2 and 0 <= gap <= 2 and 1 <= b2 <= 2
     pre: 0 <= method <= 1
-    pre: 0 <= r
+    pre: 0 <= r <= 1099511627776
     post: _
     """
     feats = _mk(n, [(s0, l0), (s1, l1)], [st0, st1])
@@ -232,8 +235,8 @@ LEMMAS = [
 PROPERTY = dict(
     functions=['features.FeatureContainer.addFeature / sort / _findFeaturesAt (bdbnb, nb, optim, fallback) / findFeaturesAt (lru_cache) / findFeaturesBetween / findFeaturesAtPysamAlign',
                'molecule.featureannotatedmolecule.FeatureAnnotatedMolecule.__init__ / annotate (both methods, stranded None / False / True)'],
-    bounds={'quick': dict(point='<=2 features with UNBOUNDED start and length >= 0 (nested, identical, zero-length), 3 strand values, unbounded query coordinate (incl. negative), 4 lookup modes',
-                          range='<=2 features, unbounded range start / width', read='2 features, read with 1-2 aligned blocks of 1-2 bases, both methods', molecule='FeatureAnnotatedMolecule over one forward or reverse read (1-2 blocks) and 1-2 features with start 6..14, length 0/1/3/6, 3 strand values; stranded any / same / opposite; both methods',
+    bounds={'quick': dict(point='<=2 features with symbolic start and length in 0..2**40 (nested, identical, zero-length; far beyond any genome, inside the int64 / uint64 index arrays of the container), 3 strand values, symbolic query coordinate in -2**40..2**42, 4 lookup modes',
+                          range='<=2 features, symbolic range start / width within the same 2**40 bounds', read='2 features, read with 1-2 aligned blocks of 1-2 bases, both methods', molecule='FeatureAnnotatedMolecule over one forward or reverse read (1-2 blocks) and 1-2 features with start 6..14, length 0/1/3/6, 3 strand values; stranded any / same / opposite; both methods',
                           history='add/(sort)/query x2 (thorough x3) with coordinates from the pool {0,3,5,8} (thorough +10) (they are cache keys), 2 query coordinates repeated in every phase, explicit re-index or automatic, REAL functools.lru_cache'),
             'thorough': dict(point='3 features split over the relative order of starts')},
     outside=['GTF/BED loading', 'several contigs (per-contig dictionaries)', 'more than 3 features', 'findNearestFeature', 'features that differ only in strand None vs +/-', 'negative feature coordinates', 'exact duplicate features'],
